@@ -488,8 +488,11 @@ def verify_contract(con, contracts, tier="quick", externals=None):
         res.obligations.append(d)
     res.solver_seconds += E.solver_seconds
     res.seconds = time.time() - t0
-    if getattr(E, "header_changes", None):
-        res.tentative = "; ".join(E.header_changes)
+    changes = list(getattr(E, "header_changes", None) or [])
+    if getattr(con, "head_changed", None):
+        changes.insert(0, con.head_changed)
+    if changes:
+        res.tentative = "; ".join(changes)
         res.notes.append("tentative: " + res.tentative)
     return res
 
